@@ -478,7 +478,8 @@ theorem prime_sound (src : Src) (fuel : Nat) : ∀ (n : Nat) (st : StageSt) (bel
     match prime src fuel n st below pos with
     | .ok sts' pos' => pos ≤ pos' ∧
         (∀ m, pos ≤ m → m < pos' → (denoteF src below pos m).answers n = false) ∧
-        (∀ N, pos' ≤ N → denoteF src sts' pos' N = denoteF src (st :: below) pos N)
+        (∀ N, pos' ≤ N → denoteF src sts' pos' N = denoteF src (st :: below) pos N ∧
+          (denoteF src below pos N).answers n = true)
     | .err e pos' => pos ≤ pos' ∧
         (∀ m, pos ≤ m → m < pos' → (denoteF src below pos m).answers n = false) ∧
         (∀ N, pos' ≤ N → ∃ ys, ys.length < n ∧ denoteF src below pos N = ⟨ys, .err e⟩)
@@ -488,7 +489,7 @@ theorem prime_sound (src : Src) (fuel : Nat) : ∀ (n : Nat) (st : StageSt) (bel
   | zero =>
     intro st below pos
     simp only [prime]
-    exact ⟨Nat.le_refl _, fun m hm hm' => by omega, fun N _ => trivial⟩
+    exact ⟨Nat.le_refl _, fun m hm hm' => by omega, fun N _ => ⟨trivial, by simp [Tr.answers]⟩⟩
   | succ n ih =>
     intro st below pos
     simp only [prime]
@@ -528,7 +529,10 @@ theorem prime_sound (src : Src) (fuel : Nat) : ∀ (n : Nat) (st : StageSt) (bel
               rw [this, answers_cons]
               exact hB2 m hge hm'
           · intro N hN
-            rw [hA2 N hN, key N (Nat.le_trans hle2 hN)]
+            have h0 := hA N (Nat.le_trans hle2 hN)
+            simp only at h0
+            refine ⟨by rw [(hA2 N hN).1, key N (Nat.le_trans hle2 hN)], ?_⟩
+            rw [h0, answers_cons]; exact (hA2 N hN).2
         | err e pos' =>
           intro ih1
           obtain ⟨hle2, hB2, hA2⟩ := ih1
@@ -551,6 +555,7 @@ theorem prime_sound (src : Src) (fuel : Nat) : ∀ (n : Nat) (st : StageSt) (bel
         refine ⟨hle, fun m hm hm' => by rw [hB m hm hm']; simp, fun N hN => ?_⟩
         have := hA N hN
         simp only at this
+        refine ⟨?_, by rw [this]; simp [Tr.answers, Term.isMore]⟩
         simp only [denoteF_cons, this]
         exact (drive_feed_none ho he hs _ _).symm
       | err e =>
@@ -558,9 +563,9 @@ theorem prime_sound (src : Src) (fuel : Nat) : ∀ (n : Nat) (st : StageSt) (bel
         refine ⟨hle, fun m hm hm' => by rw [hB m hm hm']; simp, fun N hN => ?_⟩
         exact ⟨[], by simp, hA N hN⟩
       | oof => simp only
-    | emit v => exact ⟨Nat.le_refl _, fun m hm hm' => by omega, fun N _ => rfl⟩
-    | done => exact ⟨Nat.le_refl _, fun m hm hm' => by omega, fun N _ => rfl⟩
-    | fail e => exact ⟨Nat.le_refl _, fun m hm hm' => by omega, fun N _ => rfl⟩
+    | emit v => trivial
+    | done => trivial
+    | fail e => trivial
 
 theorem pipeTr_append (a b : List Kind) (d : Tr) : pipeTr (a ++ b) d = pipeTr b (pipeTr a d) := by
   induction a generalizing d with
@@ -694,44 +699,76 @@ theorem mem_primeErrs_cons {src : Src} {bound : Nat} {before ks : List Kind} {k 
     (h : e ∈ primeErrs src bound (before ++ [k]) ks) : e ∈ primeErrs src bound before (k :: ks) := by
   simp only [primeErrs, List.mem_append]; exact Or.inr h
 
-theorem construct_sound (src : Src) (fuel bound : Nat) (hb : SrcBound src bound) :
+/-- `glomit` raised `e`: a window being primed met the error of the chain below it -/
+def PrimeRaised (src : Src) (before ks : List Kind) (e : Err) (N : Nat) : Prop :=
+  ∃ b k a ys, ks = b ++ k :: a ∧ ys.length < k.primeCount ∧ det (before ++ b) src N = ⟨ys, .err e⟩
+
+theorem PrimeRaised.cons {src : Src} {before ks : List Kind} {k : Kind} {e : Err} {N : Nat}
+    (h : PrimeRaised src (before ++ [k]) ks e N) : PrimeRaised src before (k :: ks) e N := by
+  obtain ⟨b, k', a, ys, rfl, hys, hd⟩ := h
+  exact ⟨k :: b, k', a, ys, rfl, hys, by simpa [List.append_assoc] using hd⟩
+
+theorem primeRaised_mem {src : Src} {bound : Nat} : ∀ {ks before : List Kind} {e : Err},
+    PrimeRaised src before ks e bound → e ∈ primeErrs src bound before ks := by
+  intro ks
+  induction ks with
+  | nil => intro before e h; obtain ⟨b, k, a, ys, h, _⟩ := h; simp at h
+  | cons k ks ih =>
+    intro before e h
+    obtain ⟨b, k', a, ys, hk, hys, hd⟩ := h
+    cases b with
+    | nil =>
+      simp only [List.nil_append, List.cons.injEq] at hk
+      obtain ⟨rfl, rfl⟩ := hk
+      simp only [List.append_nil] at hd
+      simp [primeErrs, hd, hys]
+    | cons k0 b =>
+      simp only [List.cons_append, List.cons.injEq] at hk
+      obtain ⟨rfl, rfl⟩ := hk
+      exact mem_primeErrs_cons (ih ⟨b, k', a, ys, rfl, hys, by simpa [List.append_assoc] using hd⟩)
+
+/-- `glomit`, against the trace semantics.  The last component bounds the position by the
+    reference scan when the source has a known length `bound`. -/
+theorem construct_sound (src : Src) (fuel bound : Nat) :
     ∀ (ks before : List Kind) (acc : List StageSt) (pos p : Nat),
-    (∀ N, pos ≤ N → denoteF src acc pos N = det before src N) → pos ≤ p → pos ≤ bound →
+    (∀ N, pos ≤ N → denoteF src acc pos N = det before src N) →
     match construct src fuel ks acc pos with
-    | .ok sts' pos' => pos ≤ pos' ∧ pos' ≤ bound ∧ pos' ≤ primeScan src bound before ks p ∧
+    | .ok sts' pos' => pos ≤ pos' ∧
         (∀ m, pos ≤ m → m < pos' → PrimeNeeded src before ks m) ∧
-        ∀ N, pos' ≤ N → denoteF src sts' pos' N = det (before ++ ks) src N
-    | .err e pos' => pos ≤ pos' ∧ pos' ≤ bound ∧ pos' ≤ primeScan src bound before ks p ∧
+        (∀ N, pos' ≤ N → denoteF src sts' pos' N = det (before ++ ks) src N) ∧
+        (SrcBound src bound → pos ≤ p → pos ≤ bound → pos' ≤ bound ∧ pos' ≤ primeScan src bound before ks p)
+    | .err e pos' => pos ≤ pos' ∧
         (∀ m, pos ≤ m → m < pos' → PrimeNeeded src before ks m) ∧
-        e ∈ primeErrs src bound before ks
+        (∀ N, pos' ≤ N → PrimeRaised src before ks e N) ∧
+        (SrcBound src bound → pos ≤ p → pos ≤ bound → pos' ≤ bound ∧ pos' ≤ primeScan src bound before ks p)
     | .oof => True := by
   intro ks
   induction ks with
   | nil =>
-    intro before acc pos p hinv hp hpb
+    intro before acc pos p hinv
     simp only [construct, primeScan, List.append_nil]
-    exact ⟨Nat.le_refl _, hpb, hp, fun m hm hm' => by omega, hinv⟩
+    exact ⟨Nat.le_refl _, fun m hm hm' => by omega, hinv, fun _ hp hpb => ⟨hpb, hp⟩⟩
   | cons k ks ih =>
-    intro before acc pos p hinv hp hpb
+    intro before acc pos p hinv
     simp only [construct]
     have hpr := prime_sound src fuel k.primeCount (StageSt.init k) acc pos
     -- facts shared by the two outcomes of priming
     have lazyAbs : ∀ pos', (∀ m, pos ≤ m → m < pos' → (denoteF src acc pos m).answers k.primeCount = false) →
         (∀ m, pos ≤ m → m < pos' → (det before src m).answers k.primeCount = false) :=
       fun pos' h m hm hm' => by rw [← hinv m hm]; exact h m hm hm'
-    have bnd : ∀ pos', pos ≤ pos' →
+    have bnd : SrcBound src bound → pos ≤ bound → ∀ pos', pos ≤ pos' →
         (∀ m, pos ≤ m → m < pos' → (det before src m).answers k.primeCount = false) → pos' ≤ bound := by
-      intro pos' hle h
+      intro hb hpb pos' hle h
       rcases Nat.eq_or_lt_of_le hle with heq | hlt
       · omega
       · have h1 := h (pos' - 1) (by omega) (by omega)
         have h2 := pipeTr_isMore before _ (answers_false_isMore h1)
         have := hb _ h2
         omega
-    have scan : ∀ pos', pos ≤ pos' →
+    have scan : SrcBound src bound → pos ≤ p → ∀ pos', pos ≤ pos' →
         (∀ m, pos ≤ m → m < pos' → (det before src m).answers k.primeCount = false) →
         pos' ≤ (if k.primeCount = 0 then p else needFrom before src bound k.primeCount p) := by
-      intro pos' hle h
+      intro hb hp pos' hle h
       split
       · next hc =>
         -- nothing is primed: no position can have been pulled
@@ -749,47 +786,51 @@ theorem construct_sound (src : Src) (fuel bound : Nat) (hb : SrcBound src bound)
       have hBabs := lazyAbs p1 hB
       have hinv' : ∀ N, p1 ≤ N → denoteF src acc' p1 N = det (before ++ [k]) src N := by
         intro N hN
-        rw [hA N hN, denoteF_init, hinv N (Nat.le_trans hle hN)]
+        rw [(hA N hN).1, denoteF_init, hinv N (Nat.le_trans hle hN)]
         simp [det, pipeTr_append, pipeTr]
       have := ih (before ++ [k]) acc' p1
         (if k.primeCount = 0 then p else needFrom before src bound k.primeCount p) hinv'
-        (scan p1 hle hBabs) (bnd p1 hle hBabs)
       simp only [primeScan]
       revert this
       cases construct src fuel ks acc' p1 with
       | ok sts' pos' =>
         intro this
-        obtain ⟨hle2, hb2, hs2, hl2, hA2⟩ := this
-        refine ⟨Nat.le_trans hle hle2, hb2, hs2, ?_, ?_⟩
+        obtain ⟨hle2, hl2, hA2, hbd2⟩ := this
+        refine ⟨Nat.le_trans hle hle2, ?_, ?_, ?_⟩
         · intro m hm hm'
           rcases Nat.lt_or_ge m p1 with hlt | hge
           · exact ⟨[], k, ks, rfl, by simpa using hBabs m hm hlt⟩
           · exact (hl2 m hge hm').cons
         · intro N hN
           rw [hA2 N hN]; simp [List.append_assoc]
+        · intro hb hp hpb
+          exact hbd2 hb (scan hb hp p1 hle hBabs) (bnd hb hpb p1 hle hBabs)
       | err e pos' =>
         intro this
-        obtain ⟨hle2, hb2, hs2, hl2, he2⟩ := this
-        refine ⟨Nat.le_trans hle hle2, hb2, hs2, ?_, mem_primeErrs_cons he2⟩
-        intro m hm hm'
-        rcases Nat.lt_or_ge m p1 with hlt | hge
-        · exact ⟨[], k, ks, rfl, by simpa using hBabs m hm hlt⟩
-        · exact (hl2 m hge hm').cons
+        obtain ⟨hle2, hl2, hr2, hbd2⟩ := this
+        refine ⟨Nat.le_trans hle hle2, ?_, fun N hN => (hr2 N hN).cons, ?_⟩
+        · intro m hm hm'
+          rcases Nat.lt_or_ge m p1 with hlt | hge
+          · exact ⟨[], k, ks, rfl, by simpa using hBabs m hm hlt⟩
+          · exact (hl2 m hge hm').cons
+        · intro hb hp hpb
+          exact hbd2 hb (scan hb hp p1 hle hBabs) (bnd hb hpb p1 hle hBabs)
       | oof => intro _; trivial
     | err e p1 =>
       intro hpr
       obtain ⟨hle, hB, hA⟩ := hpr
       have hBabs := lazyAbs p1 hB
-      have hp1b := bnd p1 hle hBabs
       simp only [primeScan]
-      refine ⟨hle, hp1b, Nat.le_trans (scan p1 hle hBabs) (le_primeScan _ _ _ _ _), ?_, ?_⟩
+      refine ⟨hle, ?_, ?_, ?_⟩
       · intro m hm hm'
         exact ⟨[], k, ks, rfl, by simpa using hBabs m hm hm'⟩
-      · obtain ⟨ys, hys, hd⟩ := hA bound hp1b
-        rw [hinv bound (Nat.le_trans hle hp1b)] at hd
-        simp [primeErrs, hd, hys]
+      · intro N hN
+        obtain ⟨ys, hys, hd⟩ := hA N hN
+        rw [hinv N (Nat.le_trans hle hN)] at hd
+        exact ⟨[], k, ks, ys, rfl, hys, by simpa using hd⟩
+      · intro hb hp hpb
+        exact ⟨bnd hb hpb p1 hle hBabs, Nat.le_trans (scan hb hp p1 hle hBabs) (le_primeScan _ _ _ _ _)⟩
     | oof => intro _; trivial
-
 
 /-! ### `it = glom(target, spec); list(islice(it, k))` -/
 
@@ -802,42 +843,37 @@ def TraceOK (kinds : List Kind) (src : Src) (k : Nat) (out : RunOut) : Prop :=
     | .raised e => out.items.length < k ∧ det kinds src N = ⟨out.items, .err e⟩
     | .oof => True
 
-structure TakeSpec (kinds : List Kind) (src : Src) (k bound : Nat) (out : RunOut) : Prop where
-  pulls_le : out.pulls ≤ bound
+/-- what a `take k` run establishes, for every source (finite or not) -/
+structure TakeSpec (kinds : List Kind) (src : Src) (k : Nat) (out : RunOut) : Prop where
   /-- every source position pulled was needed: by a window being primed, or because the
       shorter prefix does not determine `k` outputs nor the end of the stream -/
   needed : ∀ m, m < out.pulls → PrimeNeeded src [] kinds m ∨ (det kinds src m).answers k = false
-  result : (TraceOK kinds src k out ∧ out.pulls ≤ needFrom kinds src bound k (primeNeed kinds src bound)) ∨
-    (out.items = [] ∧ out.pulls ≤ primeNeed kinds src bound ∧
-      ∃ e, out.fin = .raised e ∧ e ∈ primeErrs src bound [] kinds)
+  result : TraceOK kinds src k out ∨
+    (out.items = [] ∧ ∃ e, out.fin = .raised e ∧ ∀ N, out.pulls ≤ N → PrimeRaised src [] kinds e N)
+  /-- against the reference scan, when the source has a known length -/
+  bounded : ∀ bound, SrcBound src bound → out.pulls ≤ bound ∧
+    ((∃ e, out.fin = .raised e ∧ out.items = [] ∧ PrimeRaised src [] kinds e bound ∧
+        out.pulls ≤ primeNeed kinds src bound) ∨
+      (TraceOK kinds src k out ∧ out.pulls ≤ needFrom kinds src bound k (primeNeed kinds src bound)))
 
-theorem runTake_spec (src : Src) (fuel bound : Nat) (hb : SrcBound src bound) (kinds : List Kind) (k : Nat)
-    (hfin : (runTake kinds src fuel k).fin ≠ .oof) : TakeSpec kinds src k bound (runTake kinds src fuel k) := by
-  have hc := construct_sound src fuel bound hb kinds [] [] 0 0
-    (fun N _ => by rw [denoteF_nil_zero]; rfl) (Nat.le_refl _) (Nat.zero_le _)
+theorem runTake_spec (src : Src) (fuel : Nat) (kinds : List Kind) (k : Nat)
+    (hfin : (runTake kinds src fuel k).fin ≠ .oof) : TakeSpec kinds src k (runTake kinds src fuel k) := by
+  have hc : ∀ bound, _ := fun bound => construct_sound src fuel bound kinds [] [] 0 0
+    (fun N _ => by rw [denoteF_nil_zero]; rfl)
   unfold runTake at hfin ⊢
   revert hc hfin
   cases construct src fuel kinds [] 0 with
   | ok sts pos =>
     intro hfin hc
-    simp only at hfin ⊢
-    simp only [List.nil_append] at hc
-    obtain ⟨_, hpb, hscan, hprime, hden⟩ := hc
+    simp only at hfin hc ⊢
+    obtain ⟨_, hprime, hden, _⟩ := hc 0
+    simp only [List.nil_append] at hden
     obtain ⟨hle, hB, ys, hys, hA⟩ := takeK_sound src fuel k sts pos []
     simp only [List.nil_append] at hys
     have hBabs : ∀ m, pos ≤ m → m < (takeK src fuel k sts pos []).1.pulls →
         (det kinds src m).answers k = false := fun m hm hm' => by rw [← hden m hm]; exact hB m hm hm'
-    have hmb : ∀ m, pos ≤ m → m < (takeK src fuel k sts pos []).1.pulls → m < bound :=
-      fun m hm hm' => hb _ (pipeTr_isMore kinds _ (answers_false_isMore (hBabs m hm hm')))
-    refine ⟨?_, ?_, Or.inl ⟨?_, ?_⟩⟩
-    · rcases Nat.eq_or_lt_of_le hle with heq | hlt
-      · omega
-      · have := hmb ((takeK src fuel k sts pos []).1.pulls - 1) (by omega) (by omega); omega
-    · intro m hm
-      rcases Nat.lt_or_ge m pos with hlt | hge
-      · exact Or.inl (hprime m (Nat.zero_le _) hlt)
-      · exact Or.inr (hBabs m hge hm)
-    · intro N hN
+    have htrace : TraceOK kinds src k (takeK src fuel k sts pos []).1 := by
+      intro N hN
       have h := hA N hN
       rw [hden N (Nat.le_trans hle hN)] at h
       revert h hfin
@@ -847,12 +883,29 @@ theorem runTake_spec (src : Src) (fuel bound : Nat) (hb : SrcBound src bound) (k
       | exhausted => intro _ h; exact h
       | raised e => intro _ h; exact h
       | oof => intro h; exact absurd rfl h
-    · exact pulls_le_need _ bound _ pos _ hscan hmb hBabs hle
+    refine ⟨?_, Or.inl htrace, ?_⟩
+    · intro m hm
+      rcases Nat.lt_or_ge m pos with hlt | hge
+      · exact Or.inl (hprime m (Nat.zero_le _) hlt)
+      · exact Or.inr (hBabs m hge hm)
+    · intro bound hb
+      obtain ⟨_, _, _, hbd⟩ := hc bound
+      obtain ⟨hpb, hscan⟩ := hbd hb (Nat.le_refl _) (Nat.zero_le _)
+      have hmb : ∀ m, pos ≤ m → m < (takeK src fuel k sts pos []).1.pulls → m < bound :=
+        fun m hm hm' => hb _ (pipeTr_isMore kinds _ (answers_false_isMore (hBabs m hm hm')))
+      refine ⟨?_, Or.inr ⟨htrace, pulls_le_need _ bound _ pos _ hscan hmb hBabs hle⟩⟩
+      rcases Nat.eq_or_lt_of_le hle with heq | hlt
+      · omega
+      · have := hmb ((takeK src fuel k sts pos []).1.pulls - 1) (by omega) (by omega); omega
   | err e pos =>
     intro _ hc
-    simp only at hc
-    obtain ⟨_, hpb, hscan, hprime, he⟩ := hc
-    exact ⟨hpb, fun m hm => Or.inl (hprime m (Nat.zero_le _) hm), Or.inr ⟨rfl, hscan, e, rfl, he⟩⟩
+    simp only at hc ⊢
+    obtain ⟨_, hprime, hraised, _⟩ := hc 0
+    refine ⟨fun m hm => Or.inl (hprime m (Nat.zero_le _) hm), Or.inr ⟨rfl, e, rfl, hraised⟩, ?_⟩
+    intro bound hb
+    obtain ⟨_, _, hr, hbd⟩ := hc bound
+    obtain ⟨hpb, hscan⟩ := hbd hb (Nat.le_refl _) (Nat.zero_le _)
+    exact ⟨hpb, Or.inl ⟨e, rfl, rfl, hr bound hpb, hscan⟩⟩
   | oof => intro hfin _; exact absurd rfl hfin
 
 mutual
@@ -868,12 +921,15 @@ end
 instance : ReflBEq V := ⟨fun {a} => V.beq_refl a⟩
 
 theorem checkTake_of_spec (kinds : List Kind) (xs : List V) (tail : Option Err) (k : Nat) (out : RunOut)
-    (hfin : out.fin ≠ .oof) (h : TakeSpec kinds (.fin xs tail) k xs.length out) :
+    (hfin : out.fin ≠ .oof) (h : TakeSpec kinds (.fin xs tail) k out) :
     checkTake kinds (.fin xs tail) k ⟨out.items, out.fin, out.pulls⟩ = true := by
   unfold checkTake
   simp only [srcLen]
-  rcases h.result with ⟨htr, hneed⟩ | ⟨hnil, hpn, e, hfe, hmem⟩
-  · have ht := htr xs.length h.pulls_le
+  obtain ⟨hpl, hres⟩ := h.bounded xs.length (srcBound_fin xs tail)
+  rcases hres with ⟨e, hfe, hnil, hraised, hpn⟩ | ⟨htr, hneed⟩
+  · apply Bool.or_eq_true_iff.mpr; right
+    simp [hnil, hfe, hpn, primeRaised_mem hraised]
+  · have ht := htr xs.length hpl
     apply Bool.or_eq_true_iff.mpr; left
     revert ht hfin
     cases out.fin with
@@ -892,7 +948,615 @@ theorem checkTake_of_spec (kinds : List Kind) (xs : List V) (tail : Option Err) 
       have : ¬ (k ≤ out.items.length) := by omega
       simp [hd, finOfTerm, hneed, this, List.take_of_length_le (Nat.le_of_lt hlen)]
     | oof => intro h; exact absurd rfl h
-  · apply Bool.or_eq_true_iff.mpr; right
-    simp [hnil, hfe, hpn, hmem]
+
+/-! ## Part B: each stage's trace function against its list function -/
+
+mutual
+theorem V.eq_of_beq : ∀ a b : V, V.beq a b = true → a = b
+  | .none, .none, _ => rfl
+  | .int i, .int j, h => by simp [V.beq] at h; rw [h]
+  | .list xs, .list ys, h => by simp only [V.beq] at h; rw [V.eq_of_beqL xs ys h]
+  | .tup xs, .tup ys, h => by simp only [V.beq] at h; rw [V.eq_of_beqL xs ys h]
+  | .none, .int _, h | .none, .list _, h | .none, .tup _, h => by simp [V.beq] at h
+  | .int _, .none, h | .int _, .list _, h | .int _, .tup _, h => by simp [V.beq] at h
+  | .list _, .none, h | .list _, .int _, h | .list _, .tup _, h => by simp [V.beq] at h
+  | .tup _, .none, h | .tup _, .int _, h | .tup _, .list _, h => by simp [V.beq] at h
+theorem V.eq_of_beqL : ∀ as bs : List V, V.beqL as bs = true → as = bs
+  | [], [], _ => rfl
+  | a :: as, b :: bs, h => by
+    simp only [V.beqL, Bool.and_eq_true] at h
+    rw [V.eq_of_beq a b h.1, V.eq_of_beqL as bs h.2]
+  | [], _ :: _, h => by simp [V.beqL] at h
+  | _ :: _, [], h => by simp [V.beqL] at h
+end
+
+instance : LawfulBEq V where
+  eq_of_beq {a b} h := V.eq_of_beq a b h
+  rfl {a} := V.beq_refl a
+
+theorem except_bind_ok {α β : Type} {x : Except Err α} {f : α → Except Err β} {b : β}
+    (h : (x >>= f) = .ok b) : ∃ a, x = .ok a ∧ f a = .ok b := by
+  cases x with
+  | error e => simp [bind, Except.bind] at h
+  | ok a => exact ⟨a, rfl, h⟩
+
+theorem flush_nil (c : Core) (h : ∀ n f, c.kind ≠ .chunked n f) (h2 : ∀ s m, c.kind ≠ .split s m) : c.flush = [] := by
+  unfold Core.flush
+  split
+  · next n f hk => exact absurd hk (h n f)
+  · next s m hk => exact absurd hk (h2 s m)
+  · rfl
+
+theorem fold_map (f : Fn) (c : Core) (hc : c.kind = .map f) :
+    ∀ xs ys, xs.mapM f = .ok ys → foldCore c xs .eof = ⟨ys, .eof⟩ := by
+  intro xs
+  induction xs with
+  | nil =>
+    intro ys h
+    simp only [List.mapM_nil, pure, Except.pure, Except.ok.injEq] at h
+    subst h
+    simp [foldCore, flush_nil c (by simp [hc]) (by simp [hc])]
+  | cons x xs ih =>
+    intro ys h
+    rw [List.mapM_cons] at h
+    obtain ⟨y, hy, h⟩ := except_bind_ok h
+    obtain ⟨ys', hys', h⟩ := except_bind_ok h
+    simp only [pure, Except.pure, Except.ok.injEq] at h
+    subst h
+    simp [foldCore, Core.push, hc, hy, ih ys' hys', Tr.prepend]
+
+theorem fold_base (sub : BaseFn) (s : Option V) (c : Core) (hc : c.kind = .base sub s) :
+    ∀ xs ys, baseE sub s xs = .ok ys → foldCore c xs .eof = ⟨ys, .eof⟩ := by
+  intro xs
+  induction xs with
+  | nil =>
+    intro ys h
+    simp only [baseE, Except.ok.injEq] at h
+    subst h
+    simp [foldCore, flush_nil c (by simp [hc]) (by simp [hc])]
+  | cons x xs ih =>
+    intro ys h
+    simp only [baseE] at h
+    obtain ⟨y, hy, h⟩ := except_bind_ok h
+    cases y with
+    | skip =>
+      simp only at h
+      simp [foldCore, Core.push, hc, hy, ih ys h, Tr.prepend]
+    | stop =>
+      simp only [pure, Except.pure, Except.ok.injEq] at h
+      subst h
+      simp [foldCore, Core.push, hc, hy]
+    | val v =>
+      simp only at h
+      cases s with
+      | none =>
+        simp only [Bool.false_eq_true, ↓reduceIte] at h
+        obtain ⟨r, hr, h⟩ := except_bind_ok h
+        simp only [pure, Except.pure, Except.ok.injEq] at h
+        subst h
+        simp [foldCore, Core.push, hc, hy, ih r hr, Tr.prepend]
+      | some sv =>
+        by_cases hv : (v == sv) = true
+        · simp only [hv, ↓reduceIte, pure, Except.pure, Except.ok.injEq] at h
+          subst h
+          simp [foldCore, Core.push, hc, hy, hv]
+        · simp only [hv, Bool.false_eq_true, ↓reduceIte] at h
+          obtain ⟨r, hr, h⟩ := except_bind_ok h
+          simp only [pure, Except.pure, Except.ok.injEq] at h
+          subst h
+          simp [foldCore, Core.push, hc, hy, hv, ih r hr, Tr.prepend]
+
+theorem fold_filter (key : Fn) (c : Core) (hc : c.kind = .filter key) :
+    ∀ xs ys, filterE key xs = .ok ys → foldCore c xs .eof = ⟨ys, .eof⟩ := by
+  intro xs
+  induction xs with
+  | nil =>
+    intro ys h
+    simp only [filterE, Except.ok.injEq] at h
+    subst h
+    simp [foldCore, flush_nil c (by simp [hc]) (by simp [hc])]
+  | cons x xs ih =>
+    intro ys h
+    simp only [filterE] at h
+    obtain ⟨y, hy, h⟩ := except_bind_ok h
+    obtain ⟨r, hr, h⟩ := except_bind_ok h
+    simp only [pure, Except.pure, Except.ok.injEq] at h
+    subst h
+    by_cases ht : y.truthy = true <;> simp [foldCore, Core.push, hc, hy, ht, ih r hr, Tr.prepend]
+
+theorem fold_takewhile (key : Fn) (c : Core) (hc : c.kind = .takewhile key) :
+    ∀ xs ys, takeWhileE key xs = .ok ys → foldCore c xs .eof = ⟨ys, .eof⟩ := by
+  intro xs
+  induction xs with
+  | nil =>
+    intro ys h
+    simp only [takeWhileE, Except.ok.injEq] at h
+    subst h
+    simp [foldCore, flush_nil c (by simp [hc]) (by simp [hc])]
+  | cons x xs ih =>
+    intro ys h
+    simp only [takeWhileE] at h
+    obtain ⟨y, hy, h⟩ := except_bind_ok h
+    by_cases ht : y.truthy = true
+    · simp only [ht, ↓reduceIte] at h
+      obtain ⟨r, hr, h⟩ := except_bind_ok h
+      simp only [pure, Except.pure, Except.ok.injEq] at h
+      subst h
+      simp [foldCore, Core.push, hc, hy, ht, ih r hr, Tr.prepend]
+    · simp only [ht, Bool.false_eq_true, ↓reduceIte, pure, Except.pure, Except.ok.injEq] at h
+      subst h
+      simp [foldCore, Core.push, hc, hy, ht]
+
+theorem fold_dropped (key : Fn) (c : Core) (hc : c.kind = .dropwhile key) (hf : c.flag = false) :
+    ∀ xs, foldCore c xs .eof = ⟨xs, .eof⟩ := by
+  intro xs
+  induction xs with
+  | nil => simp [foldCore, flush_nil c (by simp [hc]) (by simp [hc])]
+  | cons x xs ih => simp [foldCore, Core.push, hc, hf, ih, Tr.prepend]
+
+theorem fold_dropwhile (key : Fn) : ∀ (xs : List V) (c : Core), c.kind = .dropwhile key → c.flag = true →
+    ∀ ys, dropWhileE key xs = .ok ys → foldCore c xs .eof = ⟨ys, .eof⟩ := by
+  intro xs
+  induction xs with
+  | nil =>
+    intro c hc _ ys h
+    simp only [dropWhileE, Except.ok.injEq] at h
+    subst h
+    simp [foldCore, flush_nil c (by simp [hc]) (by simp [hc])]
+  | cons x xs ih =>
+    intro c hc hf ys h
+    simp only [dropWhileE] at h
+    obtain ⟨y, hy, h⟩ := except_bind_ok h
+    by_cases ht : y.truthy = true
+    · simp only [ht, ↓reduceIte] at h
+      simp [foldCore, Core.push, hc, hf, hy, ht, ih c hc hf ys h, Tr.prepend]
+    · simp only [ht, Bool.false_eq_true, ↓reduceIte, pure, Except.pure, Except.ok.injEq] at h
+      subst h
+      have := fold_dropped key { c with flag := false } hc rfl xs
+      simp only [hc] at this
+      simp [foldCore, Core.push, hc, hf, hy, ht, this, Tr.prepend]
+
+theorem fold_flatten (c : Core) (hc : c.kind = .flatten) :
+    ∀ xs ys, flattenE xs = .ok ys → foldCore c xs .eof = ⟨ys, .eof⟩ := by
+  intro xs
+  induction xs with
+  | nil =>
+    intro ys h
+    simp only [flattenE, List.mapM_nil, pure, Except.pure, bind, Except.bind, List.flatten_nil,
+      Except.ok.injEq] at h
+    subst h
+    simp [foldCore, flush_nil c (by simp [hc]) (by simp [hc])]
+  | cons x xs ih =>
+    intro ys h
+    simp only [flattenE] at h
+    obtain ⟨zs, hzs, h⟩ := except_bind_ok h
+    rw [List.mapM_cons] at hzs
+    obtain ⟨l, hl, hzs⟩ := except_bind_ok hzs
+    obtain ⟨ls, hls, hzs⟩ := except_bind_ok hzs
+    simp only [pure, Except.pure, Except.ok.injEq] at hzs h
+    subst hzs; subst h
+    have ih' := ih ls.flatten (by simp [flattenE, hls, bind, Except.bind, pure, Except.pure])
+    cases hx : x.asIter with
+    | none => simp [hx] at hl
+    | some l' =>
+      simp only [hx, Except.ok.injEq] at hl
+      subst hl
+      simp [foldCore, Core.push, hc, hx, ih', Tr.prepend]
+
+/-! ### slice -/
+
+theorem stepAux_skip_all (step : Nat) : ∀ (l : List V) (c : Nat), l.length ≤ c → stepAux step c l = [] := by
+  intro l
+  induction l with
+  | nil => intro c _; cases c <;> rfl
+  | cons x xs ih =>
+    intro c h
+    cases c with
+    | zero => simp at h
+    | succ c => simp only [stepAux]; exact ih c (by simpa using h)
+
+theorem fold_slice_none (a step : Nat) (hstep : 1 ≤ step) : ∀ (xs : List V) (c : Core),
+    c.kind = .slice a none step → c.cnt ≤ c.nxt →
+    foldCore c xs .eof = ⟨stepAux step (c.nxt - c.cnt) xs, .eof⟩ := by
+  intro xs
+  induction xs with
+  | nil =>
+    intro c hc _
+    simp [foldCore, flush_nil c (by simp [hc]) (by simp [hc]), stepAux]
+  | cons x xs ih =>
+    intro c hc hle
+    by_cases hlt : c.cnt < c.nxt
+    · have h := ih { c with cnt := c.cnt + 1 } hc (by simp; omega)
+      obtain ⟨d, hd⟩ : ∃ d, c.nxt - c.cnt = d + 1 := ⟨c.nxt - c.cnt - 1, by omega⟩
+      have hd' : c.nxt - (c.cnt + 1) = d := by omega
+      simp only [hd'] at h
+      simp only [hc] at h
+      simp [foldCore, Core.push, hc, hlt, sliceStatus, h, Tr.prepend, hd, stepAux]
+    · have heq : c.nxt - c.cnt = 0 := by omega
+      have h := ih { c with cnt := c.cnt + 1, nxt := c.nxt + step } hc (by simp; omega)
+      have hd' : c.nxt + step - (c.cnt + 1) = step - 1 := by omega
+      simp only [hd'] at h
+      simp only [hc] at h
+      simp [foldCore, Core.push, hc, hlt, sliceStatus, h, Tr.prepend, heq, stepAux]
+
+theorem fold_slice_some (a s step : Nat) (hstep : 1 ≤ step) : ∀ (xs : List V) (c : Core),
+    c.kind = .slice a (some s) step → c.cnt ≤ c.nxt → (c.cnt < c.nxt ∨ c.cnt < s) →
+    foldCore c xs .eof = ⟨stepAux step (c.nxt - c.cnt) (xs.take (s - c.cnt)), .eof⟩ := by
+  intro xs
+  induction xs with
+  | nil =>
+    intro c hc _ _
+    simp [foldCore, flush_nil c (by simp [hc]) (by simp [hc]), stepAux]
+  | cons x xs ih =>
+    intro c hc hle hns
+    by_cases hlt : c.cnt < c.nxt
+    · -- skipping
+      obtain ⟨d, hd⟩ : ∃ d, c.nxt - c.cnt = d + 1 := ⟨c.nxt - c.cnt - 1, by omega⟩
+      by_cases hstop : c.cnt + 1 ≥ c.nxt ∧ c.cnt + 1 ≥ s
+      · -- the stage stops after this item
+        have hrhs : stepAux step (c.nxt - c.cnt) ((x :: xs).take (s - c.cnt)) = [] := by
+          apply stepAux_skip_all
+          simp only [List.length_take, List.length_cons]; omega
+        simp [foldCore, Core.push, hc, hlt, sliceStatus, hstop, hrhs]
+      · have h := ih { c with cnt := c.cnt + 1 } hc (by simp; omega) (by simp; omega)
+        have hd' : c.nxt - (c.cnt + 1) = d := by omega
+        simp only [hd'] at h
+        simp only [hc] at h
+        have hrhs : stepAux step (d + 1) ((x :: xs).take (s - c.cnt)) = stepAux step d (xs.take (s - (c.cnt + 1))) := by
+          rcases Nat.eq_zero_or_pos (s - c.cnt) with h0 | hpos
+          · have h1 : s - (c.cnt + 1) = 0 := by omega
+            simp [h0, h1, stepAux]
+          · obtain ⟨t, ht⟩ : ∃ t, s - c.cnt = t + 1 := ⟨s - c.cnt - 1, by omega⟩
+            have ht' : s - (c.cnt + 1) = t := by omega
+            simp [ht, ht', stepAux]
+        simp [foldCore, Core.push, hc, hlt, sliceStatus, hstop, h, Tr.prepend, hd, hrhs]
+    · -- emitting: cnt = nxt < s
+      have heq : c.nxt - c.cnt = 0 := by omega
+      have hcs : c.cnt < s := by omega
+      obtain ⟨t, ht⟩ : ∃ t, s - c.cnt = t + 1 := ⟨s - c.cnt - 1, by omega⟩
+      have ht' : s - (c.cnt + 1) = t := by omega
+      let n' := if c.nxt + step > s then s else c.nxt + step
+      have hn' : c.cnt + 1 ≤ n' := by simp only [n']; split <;> omega
+      by_cases hstop : c.cnt + 1 ≥ n' ∧ c.cnt + 1 ≥ s
+      · have : t = 0 := by omega
+        subst this
+        simp only [n'] at hstop
+        simp [foldCore, Core.push, hc, hlt, sliceStatus, hstop, heq, ht, stepAux]
+      · have h := ih { c with cnt := c.cnt + 1, nxt := n' } hc (by simpa using hn') (by simp; omega)
+        simp only [ht'] at h
+        simp only [hc] at h
+        have hcount : stepAux step (n' - (c.cnt + 1)) (xs.take t) = stepAux step (step - 1) (xs.take t) := by
+          simp only [n']
+          split
+          · rw [stepAux_skip_all, stepAux_skip_all]
+            · simp only [List.length_take]; omega
+            · simp only [List.length_take]; omega
+          · congr 1; omega
+        simp only [n'] at hstop h hcount
+        simp [foldCore, Core.push, hc, hlt, sliceStatus, hstop, h, Tr.prepend, heq, ht, stepAux, hcount]
+
+/-! ### chunked, windowed -/
+
+theorem padTo_full (size : Nat) (fill : Option V) (b : List V) (h : size ≤ b.length) : padTo size fill b = b := by
+  unfold padTo
+  cases fill with
+  | none => rfl
+  | some f => simp [Nat.sub_eq_zero_of_le h]
+
+theorem chunkedAux_nil (size : Nat) (fill : Option V) (n : Nat) : chunkedAux size fill n [] = [] := by
+  cases n <;> simp [chunkedAux]
+
+theorem fold_chunked (size : Nat) (fill : Option V) (hsize : 1 ≤ size) : ∀ (xs : List V) (c : Core) (n : Nat),
+    c.kind = .chunked size fill → c.buf.length < size → (c.buf ++ xs).length ≤ n →
+    foldCore c xs .eof = ⟨chunkedAux size fill n (c.buf ++ xs), .eof⟩ := by
+  intro xs
+  induction xs with
+  | nil =>
+    intro c n hc hb hn
+    simp only [List.append_nil] at hn ⊢
+    cases hbuf : c.buf with
+    | nil => simp [foldCore, Core.flush, hc, hbuf, chunkedAux_nil]
+    | cons y ys =>
+      cases n with
+      | zero => simp [hbuf] at hn
+      | succ n =>
+        have htake : (y :: ys).take size = y :: ys := List.take_of_length_le (by rw [← hbuf]; omega)
+        have hdrop : (y :: ys).drop size = [] := List.drop_eq_nil_of_le (by rw [← hbuf]; omega)
+        simp [foldCore, Core.flush, hc, hbuf, chunkedAux, htake, hdrop, chunkedAux_nil]
+  | cons x xs ih =>
+    intro c n hc hb hn
+    cases n with
+    | zero => simp at hn
+    | succ n =>
+      by_cases hfull : size ≤ c.buf.length + 1
+      · have hlen : (c.buf ++ [x]).length = size := by simp; omega
+        have h := ih { c with buf := [] } n hc (by simp; omega) (by simp at hn ⊢; omega)
+        simp only [List.nil_append] at h
+        simp only [hc] at h
+        have happ : c.buf ++ x :: xs = (c.buf ++ [x]) ++ xs := by simp
+        have htake : (c.buf ++ x :: xs).take size = c.buf ++ [x] := by
+          rw [happ, List.take_append_of_le_length (by omega), List.take_of_length_le (by omega)]
+        have hdrop : (c.buf ++ x :: xs).drop size = xs := by
+          rw [happ, ← hlen, List.drop_left]
+        simp [foldCore, Core.push, hc, hfull, h, Tr.prepend, chunkedAux, htake, hdrop,
+          padTo_full size fill _ (Nat.le_of_eq hlen.symm)]
+      · have h := ih { c with buf := c.buf ++ [x] } (n + 1) hc (by simp; omega) (by simpa using hn)
+        simp only [hc, List.append_assoc, List.singleton_append] at h
+        simp [foldCore, Core.push, hc, hfull, h, Tr.prepend]
+
+theorem windowedL_short (size : Nat) : ∀ l : List V, l.length < size → windowedL size l = [] := by
+  intro l h
+  cases l with
+  | nil => rfl
+  | cons x xs => simp only [windowedL]; rw [if_neg (by omega)]
+
+theorem fold_windowed (size : Nat) (_hsize : 1 ≤ size) : ∀ (xs : List V) (c : Core),
+    c.kind = .windowed size → c.buf.length < size →
+    foldCore c xs .eof = ⟨windowedL size (c.buf ++ xs), .eof⟩ := by
+  intro xs
+  induction xs with
+  | nil =>
+    intro c hc hb
+    simp [foldCore, flush_nil c (by simp [hc]) (by simp [hc]), windowedL_short size c.buf hb]
+  | cons x xs ih =>
+    intro c hc hb
+    by_cases hfull : size ≤ c.buf.length + 1
+    · have hlen : (c.buf ++ [x]).length = size := by simp; omega
+      have h := ih { c with buf := (c.buf ++ [x]).tail } hc (by simp; omega)
+      simp only [hc] at h
+      have happ : c.buf ++ x :: xs = (c.buf ++ [x]) ++ xs := by simp
+      obtain ⟨y, ys, hy⟩ : ∃ y ys, c.buf ++ [x] = y :: ys := by
+        cases hb' : c.buf ++ [x] with
+        | nil => simp at hb'
+        | cons y ys => exact ⟨y, ys, rfl⟩
+      have hw : windowedL size (c.buf ++ x :: xs) = .tup (c.buf ++ [x]) :: windowedL size ((c.buf ++ [x]).tail ++ xs) := by
+        rw [happ, hy]
+        simp only [List.cons_append, windowedL, List.tail_cons]
+        have hl : (y :: ys).length = size := by rw [← hy]; exact hlen
+        rw [if_pos (by simp at hl ⊢; omega)]
+        congr 2
+        rw [← List.cons_append, List.take_append_of_le_length (by omega), List.take_of_length_le (by omega)]
+      simp [foldCore, Core.push, hc, hfull, h, Tr.prepend, hw]
+    · have h := ih { c with buf := c.buf ++ [x] } hc (by simp; omega)
+      simp only [hc, List.append_assoc, List.singleton_append] at h
+      simp [foldCore, Core.push, hc, hfull, h, Tr.prepend]
+
+/-! ### split -/
+
+def attach (cur : List V) : List (List V) → List (List V)
+  | [] => []
+  | g :: gs => (cur ++ g) :: gs
+
+theorem attach_nil (gs : List (List V)) : attach [] gs = gs := by cases gs <;> simp [attach]
+
+theorem splitL_ne_nil (isSep : V → Bool) (grouping : Bool) (m : Option Nat) (xs : List V) :
+    splitL isSep grouping false m xs ≠ [] := by
+  cases xs with
+  | nil => simp [splitL]
+  | cons x xs =>
+    simp only [splitL, Bool.and_false, Bool.false_eq_true, ↓reduceIte]
+    split
+    · simp
+    · cases splitL isSep grouping false m xs <;> simp [consHead]
+
+theorem attach_consHead (cur : List V) (x : V) (gs : List (List V)) (h : gs ≠ []) :
+    attach cur (consHead x gs) = attach (cur ++ [x]) gs := by
+  cases gs with
+  | nil => exact absurd rfl h
+  | cons g gs => simp [consHead, attach]
+
+def grouping (sep : Sep) : Bool := match sep with | .none => true | _ => false
+
+/-- `x in frozenset(sep)` can be evaluated (`x` is hashable) -/
+def sepHashOK (sep : Sep) (x : V) : Bool := match sep with | .set _ => x.hashable | _ => true
+
+theorem isSepE_ok (sep : Sep) (x : V) (h : sepHashOK sep x = true) :
+    isSepE sep x = .ok (sepFn sep x) := by
+  cases sep with
+  | none => rfl
+  | scalar v => rfl
+  | set vs => simp only [sepHashOK] at h; simp [isSepE, sepFn, h]
+
+def splitActive (m : Option Nat) (cnt : Nat) : Bool :=
+  match m with
+  | some m' => decide (cnt < m')
+  | none => true
+
+theorem splitActive_eq (m : Option Nat) (cnt : Nat) : splitActive m cnt = ((m.map (· - cnt)) != some 0) := by
+  cases m with
+  | none => rfl
+  | some m' =>
+    simp only [splitActive, Option.map_some, bne]
+    by_cases h : cnt < m' <;> simp [h] <;> omega
+
+theorem push_split (c : Core) (sep : Sep) (m : Option Nat) (hc : c.kind = .split sep m) (x : V) :
+    c.push x =
+      if splitActive m c.cnt then
+        match isSepE sep x with
+        | .error e => ([], c, .fail e)
+        | .ok true =>
+          if grouping sep && c.buf.isEmpty then ([], c, .go)
+          else ([.list c.buf], { c with buf := [], cnt := c.cnt + 1 }, .go)
+        | .ok false => ([], { c with buf := c.buf ++ [x] }, .go)
+      else ([], { c with buf := c.buf ++ [x] }, .go) := by
+  unfold Core.push
+  simp only [hc, splitActive, grouping]
+  cases sep <;> rfl
+
+theorem fold_split (sep : Sep) (m : Option Nat) : ∀ (xs : List V) (c : Core), c.kind = .split sep m →
+    (∀ x ∈ xs, sepHashOK sep x = true) →
+    foldCore c xs .eof =
+      ⟨(attach c.buf (splitL (sepFn sep) (grouping sep) c.buf.isEmpty (m.map (· - c.cnt)) xs)).map V.list, .eof⟩ := by
+  intro xs
+  induction xs with
+  | nil =>
+    intro c hc _
+    cases sep <;> cases hb : c.buf <;> simp [foldCore, Core.flush, hc, hb, splitL, grouping, attach]
+  | cons x xs ih =>
+    intro c hc hh
+    have hx := isSepE_ok sep x (hh x (List.mem_cons_self ..))
+    have hrest : ∀ y ∈ xs, sepHashOK sep y = true := fun y hy => hh y (List.mem_cons_of_mem _ hy)
+    -- appending `x` to the open group
+    have happend : foldCore { c with buf := c.buf ++ [x] } xs .eof =
+        ⟨(attach c.buf (consHead x (splitL (sepFn sep) (grouping sep) false (m.map (· - c.cnt)) xs))).map V.list, .eof⟩ := by
+      have h := ih { c with buf := c.buf ++ [x] } hc hrest
+      have he : (c.buf ++ [x]).isEmpty = false := by cases c.buf <;> rfl
+      simp only [he] at h
+      rw [h, attach_consHead _ _ _ (splitL_ne_nil _ _ _ _)]
+    simp only [foldCore, push_split c sep m hc x, hx]
+    by_cases hactive : splitActive m c.cnt = true
+    · have hact' : ((m.map (· - c.cnt)) != some 0) = true := by rw [← splitActive_eq]; exact hactive
+      simp only [hactive, ↓reduceIte]
+      by_cases hs : sepFn sep x = true
+      · simp only [hs]
+        by_cases hg : (grouping sep && c.buf.isEmpty) = true
+        · -- a separator while the group is still empty, grouping mode: skipped
+          have h := ih c hc hrest
+          simp only [hg, ↓reduceIte, h, Tr.prepend, List.nil_append]
+          simp only [Bool.and_eq_true] at hg
+          simp [splitL, hact', hs, hg.1, hg.2]
+        · have h := ih { c with buf := [], cnt := c.cnt + 1 } hc hrest
+          simp only [List.isEmpty_nil, attach_nil] at h
+          have hm : (m.map (· - (c.cnt + 1))) = (m.map (· - c.cnt)).map (· - 1) := by
+            cases m <;> simp [Nat.sub_add_eq]
+          simp only [hg, Bool.false_eq_true, ↓reduceIte, h, Tr.prepend]
+          have hg2 : (grouping sep && c.buf.isEmpty) = false := by simpa using hg
+          simp [splitL, hact', hs, hg2, hm, attach]
+      · have hs' : sepFn sep x = false := by simpa using hs
+        simp only [hs', happend, Tr.prepend, List.nil_append]
+        simp [splitL, hs']
+    · have hact' : ((m.map (· - c.cnt)) != some 0) = false := by rw [← splitActive_eq]; simpa using hactive
+      simp only [hactive, Bool.false_eq_true, ↓reduceIte, happend, Tr.prepend, List.nil_append]
+      simp [splitL, hact']
+
+/-! ### unique -/
+
+theorem fold_unique (key : Fn) : ∀ (xs ks : List V) (c : Core) (before : List V), c.kind = .unique key →
+    xs.mapM key = .ok ks → ks.all V.hashable = true → (∀ k, k ∈ c.buf ↔ k ∈ before) →
+    foldCore c xs .eof = ⟨uniqueAux before (xs.zip ks), .eof⟩ := by
+  intro xs
+  induction xs with
+  | nil =>
+    intro ks c before hc _ _ _
+    simp [foldCore, flush_nil c (by simp [hc]) (by simp [hc]), uniqueAux]
+  | cons x xs ih =>
+    intro ks c before hc hk hh hinv
+    rw [List.mapM_cons] at hk
+    obtain ⟨k, hkx, hk⟩ := except_bind_ok hk
+    obtain ⟨ks', hks', hk⟩ := except_bind_ok hk
+    simp only [pure, Except.pure, Except.ok.injEq] at hk
+    subst hk
+    simp only [List.all_cons, Bool.and_eq_true] at hh
+    by_cases hseen : k ∈ c.buf
+    · have h := ih ks' c (before ++ [k]) hc hks' hh.2 (by
+        intro k'
+        simp only [List.mem_append, List.mem_singleton, ← hinv k']
+        constructor
+        · exact Or.inl
+        · rintro (h | rfl)
+          · exact h
+          · exact hseen)
+      have hb : k ∈ before := (hinv k).mp hseen
+      simp [foldCore, Core.push, hc, hkx, hh.1, hseen, h, Tr.prepend, uniqueAux, hb]
+    · have h := ih ks' { c with buf := c.buf ++ [k] } (before ++ [k]) hc hks' hh.2 (by
+        intro k'
+        simp only [List.mem_append, hinv k'])
+      have hb : k ∉ before := fun hb => hseen ((hinv k).mpr hb)
+      simp only [hc] at h
+      simp [foldCore, Core.push, hc, hkx, hh.1, hseen, h, Tr.prepend, uniqueAux, hb]
+
+/-! ### every stage, and the composition -/
+
+theorem stage_ref (k : Kind) (hw : k.wf = true) (xs ys : List V) (h : refE k xs = .ok ys) :
+    stageTr k ⟨xs, .eof⟩ = ⟨ys, .eof⟩ := by
+  cases k with
+  | base sub s => simpa [stageTr, Kind.initStopped] using fold_base sub s (Core.init (.base sub s)) rfl xs ys h
+  | map f => simpa [stageTr, Kind.initStopped] using fold_map f (Core.init (.map f)) rfl xs ys h
+  | filter key => simpa [stageTr, Kind.initStopped] using fold_filter key (Core.init (.filter key)) rfl xs ys h
+  | takewhile key =>
+    simpa [stageTr, Kind.initStopped] using fold_takewhile key (Core.init (.takewhile key)) rfl xs ys h
+  | dropwhile key =>
+    simpa [stageTr, Kind.initStopped] using fold_dropwhile key xs (Core.init (.dropwhile key)) rfl rfl ys h
+  | flatten => simpa [stageTr, Kind.initStopped] using fold_flatten (Core.init .flatten) rfl xs ys h
+  | slice a stop step =>
+    simp only [Kind.wf, decide_eq_true_eq] at hw
+    simp only [refE, Except.ok.injEq] at h
+    subst h
+    cases stop with
+    | none =>
+      have := fold_slice_none a step hw xs (Core.init (.slice a none step)) rfl (by simp [Core.init])
+      simpa [stageTr, Kind.initStopped, sliceStatus, sliceL, Core.init] using this
+    | some s =>
+      by_cases hz : a = 0 ∧ s = 0
+      · obtain ⟨rfl, rfl⟩ := hz
+        simp [stageTr, Kind.initStopped, sliceStatus, sliceL, stepAux]
+      · have := fold_slice_some a s step hw xs (Core.init (.slice a (some s) step)) rfl
+          (by simp [Core.init]) (by simp [Core.init]; omega)
+        have hns : ¬ (a = 0 ∧ s = 0) := hz
+        simp only [stageTr, Kind.initStopped, sliceStatus]
+        have hcond : ¬ (0 ≥ a ∧ 0 ≥ s) := by omega
+        simp only [hcond, ↓reduceIte]
+        simpa [sliceL, Core.init] using this
+  | chunked size fill =>
+    simp only [Kind.wf, decide_eq_true_eq] at hw
+    simp only [refE, Except.ok.injEq] at h
+    subst h
+    have := fold_chunked size fill hw xs (Core.init (.chunked size fill)) xs.length rfl
+      (by simp [Core.init]; omega) (by simp [Core.init])
+    simpa [stageTr, Kind.initStopped, chunkedL, Core.init] using this
+  | windowed size =>
+    simp only [Kind.wf, decide_eq_true_eq] at hw
+    simp only [refE, Except.ok.injEq] at h
+    subst h
+    have := fold_windowed size hw xs (Core.init (.windowed size)) rfl (by simp [Core.init]; omega)
+    simpa [stageTr, Kind.initStopped, Core.init] using this
+  | split sep m =>
+    have hall : ∀ x ∈ xs, sepHashOK sep x = true := by
+      intro x hx
+      cases sep with
+      | none => rfl
+      | scalar v => rfl
+      | set vs =>
+        by_cases hh : xs.all V.hashable = true
+        · exact List.all_eq_true.mp hh x hx
+        · simp [refE, splitE, hh] at h
+    have hys : ys = (splitL (sepFn sep) (grouping sep) true m xs).map V.list := by
+      cases sep with
+      | none => simpa [refE, splitE, grouping] using h.symm
+      | scalar v => simpa [refE, splitE, grouping] using h.symm
+      | set vs =>
+        by_cases hh : xs.all V.hashable = true
+        · simp only [refE, splitE, hh, Bool.not_true, Bool.false_eq_true, ↓reduceIte, Except.ok.injEq] at h
+          simpa [grouping] using h.symm
+        · simp [refE, splitE, hh] at h
+    subst hys
+    have := fold_split sep m xs (Core.init (.split sep m)) rfl hall
+    simp only [Core.init, List.isEmpty_nil, Nat.sub_zero] at this
+    have hm' : Option.map (fun x => x) m = m := by cases m <;> rfl
+    simp only [hm', attach_nil] at this
+    simpa [stageTr, Kind.initStopped, Core.init] using this
+  | unique key =>
+    simp only [refE, uniqueE] at h
+    obtain ⟨ks, hks, h⟩ := except_bind_ok h
+    split at h
+    · next hhash =>
+      simp only [pure, Except.pure, Except.ok.injEq] at h
+      subst h
+      have := fold_unique key xs ks (Core.init (.unique key)) [] rfl hks hhash (by simp [Core.init])
+      simpa [stageTr, Kind.initStopped] using this
+    · simp [throw, throwThe, MonadExceptOf.throw] at h
+
+theorem compose_ref : ∀ (kinds : List Kind) (xs ys : List V), (∀ k ∈ kinds, k.wf = true) →
+    composeE kinds xs = .ok ys → pipeTr kinds ⟨xs, .eof⟩ = ⟨ys, .eof⟩ := by
+  intro kinds
+  induction kinds with
+  | nil => intro xs ys _ h; simp only [composeE, Except.ok.injEq] at h; subst h; rfl
+  | cons k ks ih =>
+    intro xs ys hw h
+    simp only [composeE] at h
+    obtain ⟨zs, hzs, h⟩ := except_bind_ok h
+    simp only [pipeTr]
+    rw [stage_ref k (hw k (List.mem_cons_self ..)) xs zs hzs]
+    exact ih zs ys (fun k' hk' => hw k' (List.mem_cons_of_mem _ hk')) h
 
 end Glom.C17
